@@ -150,7 +150,7 @@ def inline_comment_on_continued_line():
 
 
 def search(seed=0, keep_n=400):
-    hit = limit_off_case() or inline_comment_on_continued_line() or preprocessed_fixed_case()
+    hit = limit_off_case() or inline_comment_on_continued_line() or preprocessed_fixed_case() or comment_lines_between_continuations()
     if hit:
         return hit
     n = 0
@@ -196,4 +196,19 @@ def preprocessed_fixed_case():
     if norm(got) != norm(want):
         return {"confirmed": True, "input": {"fixed": fixed, "preprocessor": "pcpp"}, "actual": got, "expected": want,
                 "how": "real FortranReader(fixed=True, preprocessor=[pcpp ...]) on a fixed-form .F file vs the free-form rendering"}
+    return None
+
+
+def comment_lines_between_continuations():
+    """a line of blanks (longer than six characters) and a comment line whose '!' stands in column 7 or later are comment lines: between a statement and its continuation
+    line they change nothing"""
+    fixed = ("      subroutine s(a,\n          \n      ! a comment\n     &  b)\n      integer a,\n            ! about b\n     &        b\n      end subroutine s\n")
+    free = "subroutine s(a, &\n\n  ! a comment\n  b)\ninteger a, &\n  ! about b\n  b\nend subroutine s\n"
+    try:
+        a, b = read(free, False), read(fixed, True, True)
+    except Exception as e:
+        return {"confirmed": True, "input": {"fixed": fixed}, "actual": f"{type(e).__name__}: {e}", "expected": "reads like the free-form rendering", "how": "real FortranReader(fixed=True)"}
+    if a != b:
+        return {"confirmed": True, "input": {"fixed": fixed, "free": free}, "actual": b, "expected": a,
+                "how": "real FortranReader(fixed=True) vs the free-form rendering: blank and comment lines between continuation lines"}
     return None
